@@ -991,8 +991,8 @@ def run_spec(spec, rng, res, stats, terms, perm_budget, emit=True):
         for fr in rec.frames:
             try:
                 t, exact, scale_ok = frame_term(fr)
-            except Unterm as e:
-                res.corr_errors.append(('c07-frame', str(e)))
+            except Exception as e:      # noqa - foreign objects in recorded answers must not stop the run
+                res.corr_errors.append(('c07-frame', '%s: %s' % (type(e).__name__, e)))
                 continue
             frames_exact = frames_exact and exact
             gs = sorted(Fraction(x['res']['grade']) for x in fr['trace'] if 'res' in x)
@@ -1008,8 +1008,8 @@ def run_spec(spec, rng, res, stats, terms, perm_budget, emit=True):
             continue
         try:
             t, exact = top_term(spec, g, rec, inp, st, out, frames_exact, tie_risk)
-        except Unterm as e:
-            res.corr_errors.append(('c07-top', str(e)))
+        except Exception as e:      # noqa
+            res.corr_errors.append(('c07-top', '%s: %s' % (type(e).__name__, e)))
             continue
         if t:
             stats['top_exact' if exact else 'top_rounded'] += 1
@@ -1049,6 +1049,75 @@ def exhaustive_small(res, stats):
                         bad = judge(spec, spec['inputs'][0], st, out)
                         if bad:
                             res.witnesses.append(witness(spec, spec['inputs'][0], bad, 'formula'))
+
+
+# ------------------------------------------------------------------------------------------------
+# one grader OBJECT reused over a sequence of submissions (over-long ones followed by exact ones, errors in between):
+# every call is judged by the formula, and the configured answers must be left exactly as they were
+# ------------------------------------------------------------------------------------------------
+def config_snapshot(obj):
+    """a comparable deep image of config['answers']; foreign objects show up by their type name"""
+    if isinstance(obj, dict):
+        return ['dict'] + [[repr(k), config_snapshot(v)] for k, v in sorted(obj.items(), key=lambda kv: repr(kv[0]))]
+    if isinstance(obj, (list, tuple)):
+        return [type(obj).__name__] + [config_snapshot(x) for x in obj]
+    if isinstance(obj, (str, int, float, bool)) or obj is None:
+        return repr(obj)
+    return '<%s>' % type(obj).__name__
+
+
+def reuse_sequence(rng, spec):
+    d = spec['cfg']['delimiter']
+    seq = []
+    inputs = list(spec['inputs'])
+    rng.shuffle(inputs)
+    for inp in inputs[:4]:
+        items = my_split(inp, d)
+        extra = [rng.choice(items) if items and rng.random() < 0.5 else rng.choice(ITEM_NAMES) for _ in range(rng.randint(1, 3))]
+        longer = d.join(items + extra)
+        seq += [longer, inp] if rng.random() < 0.7 else [inp, longer, inp]
+    return seq
+
+
+def run_reuse(spec, seq):
+    """returns [(outcome, judgement or None, config changed?)] for the calls of seq on ONE grader object"""
+    st, built = core.guarded(build, spec)
+    if st != 'ret':
+        return None
+    g = built[0]
+    out = []
+    for inp in seq:
+        before = config_snapshot(g.config['answers'])
+        st, r = core.guarded(g, *call_args(spec, inp))
+        after = config_snapshot(g.config['answers'])
+        changed = spec['form'] != 'infer' and before != after
+        out.append((canon_outcome(st, r), judge(spec, inp, st, r), changed))
+    return out
+
+
+def reuse_pass(spec, rng, res, stats):
+    seq = reuse_sequence(rng, spec)
+    results = run_reuse(spec, seq)
+    if results is None:
+        return
+    first_change = next((k for k, r in enumerate(results) if r[2]), None)
+    if first_change is not None and not any(r[1] for r in results):
+        # the configured answers were modified: grade every submission of the case once more on the same object
+        seq = seq + list(spec['inputs'])
+        results = run_reuse(spec, seq)
+    res.oracle_evals += len(results)
+    stats['reuse_calls'] += len(results)
+    for k, (outcome, bad, changed) in enumerate(results):
+        if bad:
+            note = ''
+            if first_change is not None and first_change < k:
+                note = ' [the call on %r had modified config[\'answers\']]' % (seq[first_change],)
+            res.witnesses.append(witness(spec, seq[k], 'call %d on the same grader object (earlier submissions: %r)%s: %s'
+                                         % (k + 1, seq[:k], note, bad), 'reuse', {'calls': seq[:k + 1]}))
+            return
+    if first_change is not None:
+        stats['reuse_config_modified_without_misgrading'] += 1
+        res.notes.append('config[\'answers\'] modified by the call on %r without any later misgrading observed' % (seq[first_change],))
 
 
 # ------------------------------------------------------------------------------------------------
@@ -1310,7 +1379,16 @@ def run(ctx):
     for spec, is_corpus in specs:
         stats['specs_%s_%s' % ('nested' if spec['nested'] else 'flat', spec.get('stream', 'exact'))] += 1
         stats['form_' + spec['form']] += 1
-        run_spec(spec, rng, res, stats, terms, perm_budget if not is_corpus else 23)
+        try:
+            run_spec(spec, rng, res, stats, terms, perm_budget if not is_corpus else 23)
+        except Exception as e:      # noqa - a crash on one case is reported, the other cases and the oracles still run
+            import traceback
+            res.corr_errors.append(('c07-case', traceback.format_exc()[-1500:]))
+        try:
+            reuse_pass(spec, rng, res, stats)
+        except Exception as e:      # noqa
+            import traceback
+            res.corr_errors.append(('c07-reuse', traceback.format_exc()[-1500:]))
     if thorough:
         exhaustive_small(res, stats)
     history_stream(rng, res, stats, n_worlds=4 if not thorough else 60, n_calls=45, n_probes=8)
@@ -1380,6 +1458,13 @@ def replay(w):
     spec, inp = w.get('spec'), w.get('input')
     if spec is None:
         return False, 'witness carries no case'
+    if w.get('kind') == 'reuse':
+        results = run_reuse(spec, w['calls'])
+        if results is None:
+            return False, 'the grader cannot be built'
+        outcome, bad, changed = results[-1]
+        desc = 'one SingleListGrader object, submissions %r in this order; last -> %r' % (w['calls'], outcome)
+        return bool(bad), desc + ': ' + (bad or 'satisfies the property') + ('; config[\'answers\'] was modified by the last call' if changed else '')
     st, built = core.guarded(build, spec)
     if st != 'ret':
         return w.get('kind') == 'construct', 'construction: %r' % (built,)
